@@ -41,6 +41,7 @@ RULE = (
     "analysis.filters, every rendered tag in analysis.tags, and every root answered by the render arguments / globals whose name no "
     "assign / capture / increment / decrement in the whole template set mentions is reported in analysis.globals. Non-trivial = >= 1 lookup "
     "answered by globals and >= 1 partial call; distinct by sources."
+    " Rounds 5-6 added enumerated families: names bound twice by one block; re-entrant partials; partials inside rendered partials."
 )
 REQUIRED = [
     ("liquid/static_analysis.py", "analyze"),
